@@ -18,7 +18,9 @@ RULE = ("Hypothesis draws a C01-style operator tree (complex payloads and comple
         "index arrays hold the same positions in equal or different order."
         " Further: congruence products B K1 (K2) B^H with a lazy B, Householder reflectors with complex coefficients,"
         " a true declaration made on a derived operator (i K for skew-Hermitian K) before K itself is used,"
-        " column-major operands.")
+        " column-major operands."
+        " Round 5: kernel functions that are not symmetric in their arguments, Tridiagonal operators built from one"
+        " array object for both bands.")
 ASSUMPTIONS = [
     "NumPy backend with harness shim; the generic x @ A of kinds without _rmatmat runs through the shim's linear_transpose",
     "A.T.T / A.H.H are compared by value, not by object identity",
